@@ -5,7 +5,7 @@ seed x property) and seeded/cert_results.jsonl (certificate engine, quick size, 
 tools/seed_cert.py; `caught_by_checks` = properties whose own families contain a violating universe).
 Also updates each meta.json's `detected_by`."""
 import glob, json, os
-res, cert = {}, {}
+res, cert, cert_thorough = {}, {}, {}
 for l in open('/verif/seeded/results.jsonl'):
     d = json.loads(l)
     res[(d['seed'], d['property'])] = d
@@ -13,7 +13,10 @@ if os.path.exists('/verif/seeded/cert_results.jsonl'):
     for l in open('/verif/seeded/cert_results.jsonl'):
         d = json.loads(l)
         if 'error' not in d:
-            cert[d['seed']] = d
+            if d.get('n', 1000) <= 1000:
+                cert[d['seed']] = d
+            elif d.get('caught_by_checks'):
+                cert_thorough[d['seed']] = d
 seeds = sorted(os.path.basename(os.path.dirname(p)) for p in glob.glob('/verif/seeded/*/meta.json'))
 print("| change | file | breaks | Kani harness checks (run -> caught) | certificate engine, quick size (checks whose families catch it) |")
 print("|---|---|---|---|---|")
@@ -31,11 +34,15 @@ for s in seeds:
         cc = "not run (no solver code touched)" if not any(f.startswith(("src/solver", "src/conflict", "src/snapshot")) for f in m['files_changed']) else "not run"
     elif c.get('caught_by_checks'):
         cc = "**" + ", ".join(c['caught_by_checks']) + "**"
+    elif s in cert_thorough:
+        cc = "none at the quick size; at the thorough size: **" + ", ".join(cert_thorough[s]['caught_by_checks']) + "**"
     else:
         cc = "none"
     n_kani += bool(det)
     n_cert += bool(c and c.get('caught_by_checks'))
     n_any += bool(det or (c and c.get('caught_by_checks')))
+    n_thorough_only = globals().get('n_thorough_only', 0) + bool(not det and not (c and c.get('caught_by_checks')) and s in cert_thorough)
+    globals()['n_thorough_only'] = n_thorough_only
     m['detected_by'] = {"kani_checks_run": [p for p, _ in runs], "kani_caught_by": det, "harnesses": harn[:6],
                         "certificate_engine_caught_by": (c or {}).get('caught_by_checks'),
                         "certificate_engine_first_violations": (c or {}).get('first', [])[:2]}
@@ -43,5 +50,5 @@ for s in seeds:
     print("| %s | %s | %s | %s | %s |" % (s, ", ".join(os.path.basename(f) for f in m['files_changed']),
                                        m['what_it_breaks'][:100].replace("|", "/"), k, cc))
 print()
-print("%d changes; caught by a Kani harness check: %d; caught by the certificate engine (quick size): %d; caught by at least one: %d"
-      % (len(seeds), n_kani, n_cert, n_any))
+print("%d changes; caught by a Kani harness check: %d; caught by the certificate engine (quick size): %d; caught by at least one at the quick size: %d; only at the thorough size: %d"
+      % (len(seeds), n_kani, n_cert, n_any, globals().get('n_thorough_only', 0)))
